@@ -1522,6 +1522,13 @@ fn run_subject(a: &Args, name: &str) {
         if !codec.takes(&s.klass) {
             continue;
         }
+        // the twins / further configurations of the coverage round share their code with a primary subject: quick gives
+        // them a rotating half of the small-scope, length and alphabet sessions (everything else, and thorough: all)
+        if idx >= 34 && !a.thorough() && (si + idx + a.seed as usize) % 2 == 1
+            && (s.klass == "small3" && s.mode == "same" || s.klass.starts_with("alpha") || (s.klass.starts_with("lens_") && s.mode == "same"))
+        {
+            continue;
+        }
         let trains = codec.trains();
         // the window sessions are random bytes: cheap even for the quadratic matchers
         let cap = if s.klass.starts_with("lzdist") { codec.max_len(a.thorough()).max(40_000) } else { codec.max_len(a.thorough()) };
